@@ -317,6 +317,17 @@ Theorem C13_gen_kinds : forall cols,
   (uses_contains cols = true -> (contains_left_kind, contains_right_kind) = (KLookupSet, right_kind cols)).
 Proof. exact gen_kinds_ok. Qed.
 
+(* get_new_keys_iter of both classes (CONTAINS: match_empty, strings not iterated, unhashable cells ignored, the
+   product over the columns) is the model's new_keys_iter, which update_record / _reset_sorted_versions use *)
+Theorem C13_gen_get_new_keys_iter : forall cols r cells,
+  (uses_contains cols = false -> gen_simple_get_new_keys_iter cols r cells tt = Ok (new_keys_iter cols cells) tt) /\
+  (uses_contains cols = true -> forall s0,
+     gen_contains_get_new_keys_iter cols r cells s0 = Ok (new_keys_iter cols cells) (zip_groups cols cells)).
+Proof.
+  intros cols r cells. split; [apply gen_simple_get_new_keys_iter_ok|].
+  intros Hu s0. now apply gen_contains_get_new_keys_iter_ok.
+Qed.
+
 (* update_record / remove_row_id of both mapping classes leave the index the model computes *)
 Theorem C13_gen_update_record : forall cols m r cells, lm_inv cols m ->
   (uses_contains cols = false ->
